@@ -214,6 +214,8 @@ class PlainUnit(PrettyIPython, SharedRegistryObject):
         if isinstance(other, NUMERIC_TYPES):
             return self_q.compare(other, op)
         elif isinstance(other, (PlainUnit, UnitsContainer, dict)):
+            # raises ValueError for a unit of another registry
+            self._check(other)
             return self_q.compare(self._REGISTRY.Quantity(1, other), op)
 
         return NotImplemented
